@@ -289,7 +289,7 @@ fn gen_spec_once(rng: &mut Rng, field: FieldSpec, gp: &GenParams) -> Spec {
     // assertions on the main segment, non-overlapping by explicit cell sets
     let mut used = vec![vec![false; n]; width];
     let mut assertions: Vec<AssertSpec> = vec![];
-    let mut try_add = |a: AssertSpec, used: &mut Vec<Vec<bool>>, assertions: &mut Vec<AssertSpec>| {
+    let try_add = |a: AssertSpec, used: &mut Vec<Vec<bool>>, assertions: &mut Vec<AssertSpec>| {
         let probe = AssertSpec { values: vec![0; if a.kind == 2 { n / a.stride } else { 1 }], ..a.clone() };
         let steps = probe.steps(n);
         if steps.iter().any(|&s| used[a.col][s]) {
